@@ -110,7 +110,7 @@ def gen_case(rng):
         )
         names.append(eff)
     life = {k: (rng.choice(["true", "/bin/true --x=1 'q r'", "echo 'a b'"]) if rng.random() < 0.3 else None) for k in ("setup_command", "teardown_command", "node_setup_command", "node_teardown_command")}
-    return {"jobs": jobs, "groups": groups, "max_nodes": max_nodes, "poll": poll, "life": life, "use_default": use_default}
+    return {"jobs": jobs, "groups": groups, "max_nodes": max_nodes, "poll": poll, "life": life, "use_default": use_default, "assign": rng.choice([0, 0, 1, 2])}
 
 
 def build(case):
@@ -126,6 +126,15 @@ def build(case):
             kw["estimated_run_minutes"] = j["est"]
         if not case["use_default"]:
             kw["submission_group"] = j["group"]
+        if case.get("assign"):
+            # the other documented way of building a job: create it, then set its attributes (what JADE's own integration
+            # tests do with `job.blocked_by = set([1, 2])`)
+            late = {k: kw.pop(k) for k in ("blocked_by", "cancel_on_blocking_job_failure", "append_job_name", "append_output_dir", "estimated_run_minutes", "submission_group") if k in kw}
+            job = GenericCommandParameters(**kw)
+            for k, v in late.items():
+                setattr(job, k, list(v) if k == "blocked_by" and case["assign"] == 2 else v)
+            cfg.add_job(job)
+            continue
         cfg.add_job(GenericCommandParameters(**kw))
     sps = []
     for g in case["groups"]:
@@ -176,6 +185,11 @@ def check_roundtrip(case, cfg, loaded, viol):
     if [j.name for j in b] != exp_names:
         viol("job-names", f"names {[j.name for j in b]} != generated {exp_names}")
     for ja, jb, gj in zip(a, b, case["jobs"]):
+        # the configuration as built, through the same public accessors JADE's own checks and submitters use
+        got_mem = {"blocked_by": sorted(ja.get_blocking_jobs(), key=str), "cancel_on_blocking_job_failure": ja.cancel_on_blocking_job_failure, "submission_group": ja.submission_group, "estimated_run_minutes": ja.estimated_run_minutes}
+        want_mem = {"blocked_by": sorted((str(x) for x in gj["blocked_by"]), key=str), "cancel_on_blocking_job_failure": gj["flag"], "submission_group": gj["group"], "estimated_run_minutes": gj["est"]}
+        if got_mem != want_mem:
+            viol("job-fields-as-built", f"job {ja.name}: generated vs built configuration {({k: (want_mem[k], got_mem[k]) for k in want_mem if want_mem[k] != got_mem[k]})} (built by {'attribute assignment' if case.get('assign') else 'constructor arguments'})")
         want = {
             "command": gj["command"],
             "blocked_by": sorted(str(x) for x in gj["blocked_by"]),
@@ -371,6 +385,11 @@ def chunk(args, ctx, wdir):
             viol("valid-config-unloadable", f"{e!r}")
             continue
         check_roundtrip(case, cfg, loaded, viol)
+        try:  # the checks a submitter runs, on the configuration as built (submission from an existing Python process)
+            cfg.check_job_dependencies()
+            cfg.check_job_runtimes()
+        except Exception as e:
+            viol("valid-config-rejected-as-built", f"{e!r} (built by {'attribute assignment' if case.get('assign') else 'constructor arguments'})")
         if len(case["jobs"]) >= 2 and (len(case["groups"]) >= 2 or any(j["blocked_by"] for j in case["jobs"])):
             nt.append(h)
             if len(samples) < 2:
